@@ -525,6 +525,15 @@ def run_property(mod, prop_id, tier, seed, replay=None):
                             except Exception:
                                 ctx.harness_exceptions += 1
                 mod.run(ctx)
+                # escalation (DESIGN §2.3): a correspondence disagrees but no input violating the property was found yet ->
+                # search further (fresh random streams, same generators) for a concrete failing input before reporting
+                tries = 0
+                while (any(f.kind == 'correspondence' for f in ctx.failures) and not any(f.kind == 'predicate' for f in ctx.failures)
+                       and tries < 3 and ctx.elapsed() < 240):
+                    tries += 1
+                    ctx.rng = random.Random(seed * 7919 + 104729 * tries + int(prop_id[1:]))
+                    ctx.tag('escalated-search-pass')
+                    mod.run(ctx)
             if ctx.harness_exceptions:
                 print(f'HARNESS-EXCEPTIONS {ctx.harness_exceptions} (first: {ctx.log.get("first_harness_exception", "")[-400:]})')
                 ctx.tag('harness-exceptions', ctx.harness_exceptions)
